@@ -17,6 +17,11 @@ open LexVerif.Spec LexVerif.Model LexVerif.Model.WriteInt
 is written with a required `+`, see `plus_sign_needs_one_more_byte`), the writer returns exactly
 sign ++ canonical numeral at offset 0, the returned count is its length, the rest of the buffer is
 untouched, and neither FAULT (out-of-range unchecked access) nor PANIC occurs. -/
+-- Status: proved = `writeInt_correct_compact` (all compact builds, everything) and
+-- `writeInt_correct_radix_partial` (non-compact, radix ≠ 10, magnitudes < 2^64).  Open (covered by the
+-- correspondence run only): the decimal jeaiii writers (`decimal.rs`/`jeaiii.rs`, all default builds and
+-- radix 10 elsewhere), the decimal digit counts (not on the integer write path), and `algorithm_u128` for
+-- magnitudes ≥ 2^64 (`u128_divrem`, `write_step_digits`).
 def writeInt_correct_full : Prop :=
   ∀ (feats : Features) (t : IntTy) (radix : Nat) (reqSign checkValid : Bool) (v : Int) (buffer : Buf),
     FeaturesWF feats → ValidBits t.bits → validRadix feats radix = true → t.inRange v →
